@@ -114,6 +114,54 @@ def _shrink_worker(args):
     return out
 
 
+def _confirm_worker(args):
+    """re-evaluate reported cases in a fresh process: a failure that does not come back is a transient of the run
+    (observed: a one-off TypeError while numba caches were being written), not a property violation"""
+    modname, details = args
+    mod = importlib.import_module(modname)
+    prog = common.progress_path(f"{mod.PID}_confirm")
+    prog.write_text("null")
+    pool.install_inline()
+    if hasattr(mod, "setup_worker"):
+        mod.setup_worker()
+    drv = common.Driver()
+    out = []
+    for d in details:
+        try:
+            case = d["case"]
+            prog.write_text(json.dumps(case, default=str))
+            r = mod.evaluate(case, drv)
+            out.append(r["verdict"] != "ok")
+        except Exception:
+            out.append(True)      # cannot tell: keep the report
+    drv.close()
+    prog.write_text("null")
+    return out
+
+
+def confirm_failures(mod, reported: list, attempts: int = 3) -> tuple[list, int]:
+    """keep the (verdict, detail) pairs that fail again in at least one of `attempts` fresh processes"""
+    pending = list(range(len(reported)))
+    confirmed = set()
+    for _ in range(attempts):
+        if not pending:
+            break
+        res = common.run_sharded(_confirm_worker, [(mod.__name__, [reported[i][1] for i in pending])],
+                                 progress_tags=[f"{mod.PID}_confirm"])[0]
+        if isinstance(res, dict) and res.get("crashed"):
+            confirmed |= set(pending)     # a crash while re-evaluating is itself a reproduction
+            pending = []
+            break
+        still = []
+        for i, bad in zip(pending, res):
+            if bad:
+                confirmed.add(i)
+            else:
+                still.append(i)
+        pending = still
+    return [reported[i] for i in sorted(confirmed)], len(pending)
+
+
 def run_property(mod, tier: str, seed: int, shrink_budget=80, max_report=24) -> int:
     run = common.Run(mod.PID, tier, seed, rule=mod.RULE)
     run.assumptions = list(getattr(mod, "ASSUMPTIONS", []))
@@ -172,6 +220,11 @@ def run_property(mod, tier: str, seed: int, shrink_budget=80, max_report=24) -> 
                 run.violation(dict(case=shr["last_case"], expected="a result or a Python exception",
                                    actual=f"process crashed (exit code {shr['exitcode']}) while evaluating this case"))
             shr = [(k[0], v) for k, v in items]
+        else:
+            shr, dropped = confirm_failures(mod, [x for x in shr if isinstance(x[1], dict) and "case" in x[1]])
+            if dropped:
+                run.extra["transient_not_reproduced"] = dropped
+                common.log(f"TRANSIENT: {dropped} reported case(s) passed in three fresh processes and are not reported")
         for verdict, detail in shr:
             if verdict == "violation":
                 run.violation(detail)
